@@ -257,10 +257,19 @@ class Run:
             # and with it every result.  It is still behaviour of the code under test: find the call, show it again, report it.
             rounds += 1
             if FATAL_RE.search(out):
-                evs, vectors = self.isolate_fatal(vectors, cmd, env, jf, vf, tf, out)
-                fatal_events += evs
+                try:
+                    evs, vectors = self.isolate_fatal(vectors, cmd, env, jf, vf, tf, out)
+                    fatal_events += evs
+                except MachineryError as ex:
+                    # nothing reproduced it in isolation (a race that needs this very mix of sessions): not a verdict; the batch is run again
+                    if rounds >= 3:
+                        raise
+                    log("[fatal] not reproduced in isolation, batch re-driven (%s)" % str(ex).splitlines()[0][:120])
+                    self.notes.append("a fatal runtime error of the driver process was not reproducible by any single session; the batch was driven again")
             if rounds >= 4 or not FATAL_RE.search(out):
                 # the error is pervasive: report what was reproduced; the remaining sessions are not driven in this run
+                if not fatal_events:
+                    raise MachineryError("driver keeps dying of a fatal runtime error that no single session reproduces\n%s" % out[-3000:])
                 log("[fatal] still dying after %d rounds; %d reproduced call(s) reported, %d session(s) not driven" % (rounds, len(fatal_events), len(vectors)))
                 open(tf, "w").close()
                 code, out = 0, "drive: 0 vectors, 0 events (fatal runtime errors)"
@@ -436,7 +445,27 @@ class Run:
             self.add_zone_copies()
         for i, v in enumerate(self.vectors):
             v["sid"] = i + 1
-        tf, dout = self.drive(self.vectors, tag, race=race, env_extra=env_extra, workers=driver_workers)
+        # sessions about first use (an op carries cold = TRUE) each get fresh driver processes of their own, several times over: whatever the
+        # library initialises lazily is then initialised by this session's calls.  The first run's events are kept; a run that dies of a
+        # fatal runtime error is handled by drive() like any other (found, reproduced, recorded).
+        cold = [v for v in self.vectors if any(o.get("cold") for o in v["ops"])]
+        main = [v for v in self.vectors if not any(o.get("cold") for o in v["ops"])]
+        tf, dout = self.drive(main, tag, race=race, env_extra=env_extra, workers=driver_workers)
+        for v in cold:
+            kept = False
+            for rep in range(6):
+                tfc, _ = self.drive([v], tag + "_cold", race=race, env_extra=env_extra, workers=driver_workers)
+                lines = open(tfc).read().splitlines()
+                os.remove(tfc)
+                is_fatal = any('"fatal":' in ln for ln in lines)
+                if not kept or is_fatal:
+                    with open(tf, "a") as f:
+                        for ln in lines:
+                            if not kept or '"fatal":' in ln:
+                                f.write(ln + "\n")
+                    kept = True
+                if is_fatal:
+                    break
         verdicts = self.validate(tf, tag)
         self.pick_samples(tf)
         os.remove(tf)
@@ -462,9 +491,13 @@ class Run:
     def confirm_all(self, verdicts):
         """Re-drive the offending sessions against a fresh driver process and re-judge them.
         Returns the subset of verdicts that reproduced."""
+        # a fatal runtime error was already reproduced by re-driving its session alone in a fresh process (isolate_fatal); such errors
+        # (races on first use) need not strike on every run, so they are not asked to strike a third time
+        fatal = [v for v in verdicts if v["pred"] == "call_returns_at_all"]
+        verdicts = [v for v in verdicts if v["pred"] != "call_returns_at_all"]
         sids = sorted({v["sid"] for v in verdicts})
         if not sids:
-            return []
+            return fatal
         vecs = [dict(self.vectors[s - 1]) for s in sids]
         race = getattr(self, "race", False)
         saved = (self.events, dict(self.coverage), {k: set(x) for k, x in self.nt.items()}, self.states, self.transitions)
@@ -473,7 +506,7 @@ class Run:
         os.remove(tf)
         self.events, self.coverage, self.nt, self.states, self.transitions = saved
         again = {(v["sid"], v["seq"], v["prop"], v["pred"], v["cls"]) for v in vs}
-        return [v for v in verdicts if (v["sid"], v["seq"], v["prop"], v["pred"], v["cls"]) in again]
+        return fatal + [v for v in verdicts if (v["sid"], v["seq"], v["prop"], v["pred"], v["cls"]) in again]
 
 
 def shorten(x, n=48):
